@@ -36,11 +36,13 @@ pub struct GenCfg {
   pub force_interface: bool,
   pub force_multi_module: bool,
   pub force_hof: bool,
+  /// `==` / `!=` on Vec values printed from main (element identity; only meaningful for the backend differential C04)
+  pub vec_equality: bool,
 }
 
 impl Default for GenCfg {
   fn default() -> Self {
-    GenCfg { max_classes: 5, max_depth: 4, node_budget: 220, string_escapes: false, non_ascii_strings: false, wide_vec_ints: false, unboxable_recursive_enum: true, param_swap_tail_calls: true, big_ints: true, single_variant_pointer_enum: true, rec_call_in_short_circuit: true, tuple_typed_field: true, lambda_this_in_generic_class: true, lambda_this_in_enum_class: true, fn_typed_field_in_generic_class: true, fuel_in_base_case: true, effects_in_rec_call_args: true, derived_induction_args: true, neg_division: true, single_field_struct_payload: true, possibly_zero_divisor: true, same_operand_division: true, force_interface: false, force_multi_module: false, force_hof: false }
+    GenCfg { max_classes: 5, max_depth: 4, node_budget: 220, string_escapes: false, non_ascii_strings: false, wide_vec_ints: false, unboxable_recursive_enum: true, param_swap_tail_calls: true, big_ints: true, single_variant_pointer_enum: true, rec_call_in_short_circuit: true, tuple_typed_field: true, lambda_this_in_generic_class: true, lambda_this_in_enum_class: true, fn_typed_field_in_generic_class: true, fuel_in_base_case: true, effects_in_rec_call_args: true, derived_induction_args: true, neg_division: true, single_field_struct_payload: true, possibly_zero_divisor: true, same_operand_division: true, force_interface: false, force_multi_module: false, force_hof: false, vec_equality: false }
   }
 }
 
@@ -704,6 +706,52 @@ impl<'t> Gen<'t> {
       let built = call(int(n), Expr::new(Ty::Str, EK::Str("".into())));
       let at = self.t.choose(stmts.len() + 1);
       stmts.insert(at, Stmt::Expr(println(built)));
+    }
+    // equality of Vec values whose elements are run-time strings built in different ways (the same
+    // variable, an equal string built separately, the string concatenated with an empty one on either side)
+    if self.cfg.vec_equality && self.t.bool(1, 10) {
+      self.feat("vec-equality");
+      let str_vec = Ty::Vec(Box::new(Ty::Str));
+      let s = |x: &str| Expr::new(Ty::Str, EK::Str(x.into()));
+      let cat = |a: Expr, b: Expr| Expr::new(Ty::Str, EK::Binary("::", Box::new(a), Box::new(b)));
+      let var = |n: &str, ty: Ty| Expr::new(ty, EK::Var(n.into()));
+      let base = cat(s(["a", "key", ""][self.t.choose(3)]), from_int(Expr::new(Ty::Int, EK::OpaqueInt(self.t.choose(50) as i32))));
+      stmts.push(Stmt::Let { pat: Pat::Var("veqBase".into(), Ty::Str), annot: Some(Ty::Str), init: base.clone() });
+      // an empty (or not) string the optimizer cannot see through
+      let opaque_empty = |empty: bool| {
+        Expr::new(
+          Ty::Str,
+          EK::If {
+            cond: Box::new(Expr::new(Ty::Bool, EK::Binary("==", Box::new(Expr::new(Ty::Int, EK::OpaqueInt(if empty { 0 } else { 1 }))), Box::new(Expr::new(Ty::Int, EK::Int(0)))))),
+            then: Box::new(Expr::new(Ty::Str, EK::Str(String::new()))),
+            els: Box::new(Expr::new(Ty::Str, EK::Str("!".into()))),
+          },
+        )
+      };
+      let n = 2 + self.t.choose(3);
+      for i in 0..n {
+        let elem = match self.t.choose(6) {
+          0 => var("veqBase", Ty::Str),
+          1 => cat(opaque_empty(self.t.bool(3, 4)), var("veqBase", Ty::Str)),
+          2 => cat(var("veqBase", Ty::Str), opaque_empty(self.t.bool(3, 4))),
+          3 => base.clone(),
+          4 => cat(var("veqBase", Ty::Str), s("x")),
+          _ => s("lit"),
+        };
+        let init = Expr::new(str_vec.clone(), EK::StaticCall { module: vec![], class: "Vec".into(), member: "of".into(), targs: vec![Ty::Str], args: vec![elem] });
+        stmts.push(Stmt::Let { pat: Pat::Var(format!("veq{i}"), str_vec.clone()), annot: Some(str_vec.clone()), init });
+      }
+      for _ in 0..1 + self.t.choose(4) {
+        let (a, b) = (self.t.choose(n), self.t.choose(n));
+        let op = ["==", "!="][self.t.choose(2)];
+        // the builtin method `eq` (element-wise) or the operator (the Vec values themselves)
+        let cmp = if self.t.bool(2, 3) {
+          Expr::new(Ty::Bool, EK::MethodCall { recv: Box::new(var(&format!("veq{a}"), str_vec.clone())), method: "eq".into(), targs: vec![], args: vec![var(&format!("veq{b}"), str_vec.clone())] })
+        } else {
+          Expr::new(Ty::Bool, EK::Binary(op, Box::new(var(&format!("veq{a}"), str_vec.clone())), Box::new(var(&format!("veq{b}"), str_vec.clone()))))
+        };
+        stmts.push(Stmt::Expr(println(bool_str(cmp))));
+      }
     }
     let body = Expr::new(Ty::Unit, EK::Block { stmts, last: None });
     let mut members = vec![Member { name: "main".into(), is_method: false, is_public: true, tparams: vec![], params: vec![], ret: Ty::Unit, body: Some(body) }];
